@@ -44,9 +44,15 @@ macro_rules! walk {
             }
         }
         for _ in 0..3 {
+            // after the end: no items to come, and the lengths say so (also after further calls)
+            let l = ExactSizeIterator::len(&it);
+            let sh = it.size_hint();
+            $cx.check($pm, l == 0 && sh == (0, Some(0)), || format!("{}: exhausted, yet len() is {l} and size_hint {sh:?}", $name));
             let more = it.next().is_some();
             $cx.check($pm, !more, || format!("{}: yields an item after having returned None", $name));
         }
+        let l = ExactSizeIterator::len(&it);
+        $cx.check($pm, l == 0 && it.size_hint() == (0, Some(0)), || format!("{}: after repeated next() past the end len() is {l}", $name));
         let mut sorted = got.clone();
         sorted.sort();
         $cx.check($pm | C02, sorted == *want, || format!("{}: yields {got:?} but the stored entries are {want:?}", $name));
@@ -730,9 +736,14 @@ macro_rules! gwalk {
             }
         }
         for _ in 0..3 {
+            let l = ExactSizeIterator::len(&it);
+            let sh = it.size_hint();
+            $cx.check($pm, l == 0 && sh == (0, Some(0)), || format!("{}: exhausted, yet len() is {l} and size_hint {sh:?}", $name));
             let more = it.next().is_some();
             $cx.check($pm, !more, || format!("{}: yields an item after having returned None", $name));
         }
+        let l = ExactSizeIterator::len(&it);
+        $cx.check($pm, l == 0 && it.size_hint() == (0, Some(0)), || format!("{}: after repeated next() past the end len() is {l}", $name));
         for j in 0..=total {
             let mut it = $mk;
             for _ in 0..j {
